@@ -23,11 +23,11 @@ func (g *Graph) StronglyConnected() [][]Vertex {
 	vs := g.Vertices()
 	acct := sccAcct{
 		NextIndex:   1,
-		VertexIndex: make(map[Vertex]int, len(vs)),
+		VertexIndex: make(map[interface{}]int, len(vs)),
 	}
 	for _, v := range vs {
 		// Recurse on any non-visited nodes
-		if acct.VertexIndex[v] == 0 {
+		if acct.VertexIndex[hashcode(v)] == 0 {
 			stronglyConnected(&acct, g, v)
 		}
 	}
@@ -41,7 +41,7 @@ func stronglyConnected(acct *sccAcct, g *Graph, v Vertex) int {
 	minIdx := index
 
 	for _, target := range g.OutEdges(v) {
-		targetIdx := acct.VertexIndex[target]
+		targetIdx := acct.VertexIndex[hashcode(target)]
 
 		// Recurse on successor if not yet visited
 		if targetIdx == 0 {
@@ -59,7 +59,7 @@ func stronglyConnected(acct *sccAcct, g *Graph, v Vertex) int {
 		for {
 			v2 := acct.pop()
 			scc = append(scc, v2)
-			if v2 == v {
+			if hashcode(v2) == hashcode(v) {
 				break
 			}
 		}
@@ -80,8 +80,10 @@ func min(a, b int) int {
 // sccAcct is used ot pass around accounting information for
 // the StronglyConnectedComponents algorithm
 type sccAcct struct {
-	NextIndex   int
-	VertexIndex map[Vertex]int
+	NextIndex int
+	// VertexIndex is keyed by hash code, like the graph itself: a vertex
+	// need not be comparable.
+	VertexIndex map[interface{}]int
 	Stack       []Vertex
 	SCC         [][]Vertex
 }
@@ -89,7 +91,7 @@ type sccAcct struct {
 // visit assigns an index and pushes a vertex onto the stack
 func (s *sccAcct) visit(v Vertex) int {
 	idx := s.NextIndex
-	s.VertexIndex[v] = idx
+	s.VertexIndex[hashcode(v)] = idx
 	s.NextIndex++
 	s.push(v)
 	return idx
@@ -113,8 +115,9 @@ func (s *sccAcct) pop() Vertex {
 
 // inStack checks if a vertex is in the stack
 func (s *sccAcct) inStack(needle Vertex) bool {
+	h := hashcode(needle)
 	for _, n := range s.Stack {
-		if n == needle {
+		if hashcode(n) == h {
 			return true
 		}
 	}
